@@ -25,13 +25,20 @@ class Workload:
     def history(self):
         return "".join("W" if o == "W" else "A" for o in self.ops)
 
+    def history_short(self):
+        h = self.history()
+        if len(h) <= 64:
+            return h
+        import itertools
+        return "".join("%s*%d" % (k, n) if n > 3 else k * n for k, n in ((k, len(list(g))) for k, g in itertools.groupby(h)))
+
     def line(self, ident, failat=-1, mutate=0):
         ops = " ".join("W" if o == "W" else "A " + o for o in self.ops)
         return "%s write %s %d %d %d %d %d %s" % (ident, self.shape.name, self.codec, self.max, failat, mutate, len(self.ops), ops)
 
     def describe(self):
         return {"shape": self.shape.name, "codec": ["uncompressed", "snappy", "gzip"][self.codec], "page_size": self.max,
-                "history": self.history(), "records": sum(1 for o in self.ops if o != "W"), "tag": self.tag}
+                "history": self.history_short(), "records": sum(1 for o in self.ops if o != "W"), "tag": self.tag}
 
     def replay(self):
         return {"shape": self.shape.name, "shape_go": self.shape.go_source(self.shape.name), "codec": self.codec, "page_size": self.max,
